@@ -630,7 +630,34 @@ def rule_mono(ctx):
   sev_nodes = {id(e.node): e for e in upd_sev}
   ok = len(res_nodes) >= 1
   why = []
+  def by_value_or(e):
+    """the stored value is old.result | new.result (or `or`), whatever temporaries it went through"""
+    v = e.data.get("value")
+    base = e.data.get("base") if e.kind == "setattr" else None
+    if base is None and e.kind == "augstore":
+      return None
+    if not isinstance(base, Poly):
+      return None
+    o_, n_ = sym.mk("attr", base, "result"), sym.mk("attr", tr, "result")
+    if isinstance(v, Poly):
+      a_ = v.as_atom()
+      return a_ is not None and a_.kind == "bor" and sorted(repr(x) for x in a_.args) == sorted([repr(o_), repr(n_)])
+    if isinstance(v, tuple) and v and v[0] == "or":
+      parts = sorted(repr(x[1]) for x in v[1] if isinstance(x, tuple) and x[0] == "truthy")
+      return len(v[1]) == 2 and parts == sorted([repr(o_), repr(n_)])
+    return None
+
+  def by_value_max(e):
+    v = e.data.get("value")
+    base = e.data.get("base")
+    if not isinstance(base, Poly) or not isinstance(v, Poly):
+      return None
+    a_ = v.as_atom()
+    o_, n_ = sym.mk("attr", base, "severity"), sym.mk("attr", tr, "severity")
+    return a_ is not None and a_.kind == "max" and sorted(repr(as_poly(x)) for x in a_.args) == sorted([repr(o_), repr(n_)])
   for e in res_nodes.values():
+    if by_value_or(e) is True:
+      continue
     if not bool_monotone_or(e.node):
       ok = False
       why.append("existing entry's result updated by `%s`, which is not old OR new" % norm(e.node))
@@ -638,6 +665,8 @@ def rule_mono(ctx):
   ok = len(sev_nodes) >= 1
   why = []
   for e in sev_nodes.values():
+    if by_value_max(e) is True:
+      continue
     if not int_max(e.node):
       ok = False
       why.append("existing entry's severity updated by `%s`, which is not max(old, new)" % norm(e.node))
